@@ -1005,6 +1005,25 @@ def method_table(chk, rec):
         if a.tobytes() != c.tobytes():
             chk.fail("hidden-state:%s" % cls.__name__, "two %s objects built from equal arguments differ after the same operations" % cls.__name__,
                      {"class": cls.__name__, "kwargs": kw})
+        # results handed out earlier stay what they were: a caller collects frames (`frames.append(scr.add_row())`, `.scrn`) WITHOUT
+        # copying them; later add_row() calls must not rewrite them
+        try:
+            s3 = cls(**kw)
+            kept, copies = [s3.scrn], []
+            copies.append(numpy.array(kept[0], copy=True))
+            for _ in range(3 * int(kw["nx_size"]) + 2):
+                r = s3.add_row()
+                kept.append(r)
+                copies.append(numpy.array(r, copy=True))
+                kept.append(s3.scrn)
+                copies.append(numpy.array(kept[-1], copy=True))
+            stale = [i for i, (k, cpy) in enumerate(zip(kept, copies)) if numpy.asarray(k).tobytes() != cpy.tobytes()]
+            if stale:
+                chk.fail("result-rewritten:%s.add_row" % cls.__name__, "frames returned by %s.add_row() / .scrn and kept by the caller were rewritten by later "
+                         "add_row() calls (%d of %d kept results changed; first: result number %d)" % (cls.__name__, len(stale), len(kept), stale[0]),
+                         {"class": cls.__name__, "kwargs": kw, "steps": 3 * int(kw["nx_size"]) + 2})
+        except Exception as ex:
+            rec.errors.setdefault(cls.__name__ + ":kept-frames", "%s: %s" % (type(ex).__name__, str(ex)[:100]))
 
 
 # ---------------------------------------------------------------------------------------------------------------------
